@@ -170,6 +170,8 @@ def build_tb_case(rng, depth, links, fault, pos, nfill, fault_level, nmod, entry
     call0 = (f"K0().f0(1)" if kind0 == "method" else "f0(1)")
     if first[0] == "m":
         call0 = "m." + call0
+        if entry == "direct":
+            entry = "call"          # f0 lives in the module: reached through the call expression m.f0(1)
     src_a = (["import m"] if nmod else []) + files["a"]
     if entry == "load":
         src_a += ["loaded_marker = 1", call0]
@@ -209,6 +211,78 @@ def fixed_tb_cases():
                 "modules/m.py": "\n"}, "depth": 1, "links": ["arity"], "fault": "type", "fault_level": 0, "nmod": 0,
                 "tag": "arity"})
     return out
+
+
+EXPR_FAULTS = {"zerodiv": "1 / 0", "key": "{}['k']", "index": "[][1]", "type": "1 + 'a'", "value": "int('x')",
+               "attr": "None.foo", "name": "undefined_name_zz", "overflow": "10.0 ** 1000"}
+SHAPES = ["line1-load", "lastline-nonl", "backslash", "decorator-expr", "default-arg", "class-body", "class-body-load",
+          "listcomp", "dictcomp", "setcomp", "genexpr", "fstring", "lambda", "nested-other-file", "method-default"]
+
+
+def shape_case(shape, fault):
+    """a fault expression at a boundary position of the source"""
+    e = EXPR_FAULTS[fault]
+    msrc, entry, call0, inl = "\n", "call", "f0(1)", []
+    if shape == "line1-load":
+        src, entry, call0 = f"{e}\n", "load", ""
+    elif shape == "lastline-nonl":
+        src = f"x = 1\ndef f0(x):\n    return {e}"                      # no newline at the end of the file
+    elif shape == "backslash":
+        src = f"def f0(x):\n    y = 1 + \\\n        {e}\n"
+    elif shape == "decorator-expr":
+        src = f"def dec(v):\n    def d(fn):\n        return fn\n    return d\n\ndef f0(x):\n    @dec({e})\n    def g():\n        pass\n    return g\n"
+    elif shape == "default-arg":
+        src = f"def f0(x):\n    def g(a=1,\n          b={e}):\n        pass\n    return g\n"
+    elif shape == "method-default":
+        src = f"def f0(x):\n    class K:\n        def m(self, a={e}):\n            pass\n    return K\n"
+        inl = ["K"]
+    elif shape == "class-body":
+        src, inl = f"def f0(x):\n    class K:\n        y = 2\n        z = {e}\n    return K\n", ["K"]
+    elif shape == "class-body-load":
+        src, entry, call0, inl = f"x = 1\nclass K:\n    def m(self):\n        return 1\n    z = {e}\n", "load", "", ["K"]
+    elif shape == "listcomp":
+        src = f"def f0(x):\n    return [{e} for _ in range(1)]\n"
+    elif shape == "dictcomp":
+        src = f"def f0(x):\n    return {{1: {e} for _ in range(1)}}\n"
+    elif shape == "setcomp":
+        src = f"def f0(x):\n    return {{{e} for _ in range(1)}}\n"
+    elif shape == "genexpr":
+        src, inl = f"def f0(x):\n    return list({e} for _ in range(1))\n", ["<genexpr>"]
+    elif shape == "fstring":
+        src = f"def f0(x):\n    return f'a{{{e}}}b'\n" if "'" not in e else f'def f0(x):\n    return f"a{{{e}}}b"\n'
+    elif shape == "lambda":
+        src = f"def f0(x):\n    g = lambda: {e}\n    return g()\n"
+    elif shape == "nested-other-file":
+        src = "import m\ndef f0(x):\n    g = m.make()\n    return g(x)\n"
+        msrc = f"def make():\n    def inner(x):\n        return {e}\n    return inner\n"
+    else:
+        raise ValueError(shape)
+    return {"kind": "tb", "entry": entry, "call0": call0, "src": {"a.py": src, "modules/m.py": msrc}, "depth": 1,
+            "links": ["shape:" + shape], "fault": fault, "fault_level": 0, "nmod": 1 if shape == "nested-other-file" else 0,
+            "shape": shape, "inlined": inl}
+
+
+EXC_VARIANTS = {
+    "baseexception-class": "class MyB(BaseException):\n    pass\ndef f0(x):\n    raise MyB('b')\n",
+    "str-raises": "class Bad(Exception):\n    def __str__(self):\n        raise RuntimeError('s')\ndef f0(x):\n    raise Bad()\n",
+    "str-custom": "class Cus(Exception):\n    def __str__(self):\n        return 'custom text'\ndef f0(x):\n    raise Cus(1)\n",
+    "noargs-class": "def f0(x):\n    raise ValueError\n",
+    "noargs-instance": "def f0(x):\n    raise ValueError()\n",
+    "two-args": "def f0(x):\n    raise ValueError('a', 2)\n",
+    "multiline-message": "def f0(x):\n    raise ValueError('first line\\nsecond line')\n",
+    "unicode-message": "def f0(x):\n    raise ValueError('\u00fcn\u00efc\u00f6de \u2713 \u65e5\u672c')\n",
+    "keyerror-repr": "def f0(x):\n    raise KeyError('quoted key')\n",
+    "oserror-errno": "def f0(x):\n    raise OSError(2, 'No such file')\n",
+    "exception-group-free": "def f0(x):\n    raise Exception\n",
+}
+
+
+def exc_variant_case(name, entry):
+    src = EXC_VARIANTS[name]
+    if entry == "load":
+        src = src + "f0(1)\n"
+    return {"kind": "tb", "entry": entry, "call0": "" if entry == "load" else "f0(1)", "src": {"a.py": src, "modules/m.py": "\n"},
+            "depth": 1, "links": ["exc:" + name], "fault": "user", "fault_level": 0, "nmod": 0, "shape": "exc:" + name, "inlined": []}
 
 
 # --------------------------------------------------------------------------------------------- pyscript side (tb)
@@ -285,9 +359,18 @@ def _stack_entries(fmt, root):
     out = []
     for fs in fmt.stack:
         r = _rel(root, fs.filename) if fs.filename else None
-        real = r is None and fs.filename is not None and os.path.basename(fs.filename) != fs.filename
+        real = r is None and fs.filename is not None      # not a script file: a frame of real Python code
         out.append((("R:" if real else "") + _short(root, fs.filename), fs.name if fs.name is not None else "-", fs.lineno))
     return out
+
+
+def _last_lines(text):
+    """the `Type: message` part that ends a formatted report (all lines after the last traceback entry)"""
+    lines = text.rstrip("\n").split("\n")
+    k = len(lines)
+    while k > 0 and not lines[k - 1].startswith("  "):
+        k -= 1
+    return "\n".join(lines[k:]).strip()
 
 
 def _chain_kinds(text):
@@ -339,7 +422,9 @@ async def ps_tb(p, root):
             else:
                 func = g.global_sym_table["f0"]
                 await func.call(a, 1)                      # the way a service handler calls it
-    except Exception as e:  # pylint: disable=broad-except
+    except asyncio.CancelledError:
+        raise
+    except BaseException as e:  # pylint: disable=broad-except   (user classes derived from BaseException only)
         exc = e
     if exc is None:
         return {"impl": "no-exception", "lines": []}
@@ -354,9 +439,9 @@ async def ps_tb(p, root):
         ents = _stack_entries(fmt, root)
         parts.append("[" + " ".join(f"{f}|{n}|{l}" for f, n, l in ents) + "]")
         lines.append("C18 " + sx(["fmt", dump_frames(fmt.exc, root)]))
-    last = traceback.format_exception_only(exc)[-1].strip()
-    return {"impl": " ; ".join(parts), "lines": lines, "last": last,
-            "chain_impl": _chain_kinds("".join(top.format()))}
+    text = "".join(top.format())
+    return {"impl": " ; ".join(parts), "lines": lines, "last_ps": _last_lines(text),
+            "chain_impl": _chain_kinds(text)}
 
 
 def py_tb(p, root):
@@ -376,7 +461,7 @@ def py_tb(p, root):
             exec(compile(open(path).read(), path, "exec"), ns)  # noqa: S102
             if p["entry"] != "load":
                 exec(compile(p["call0"] if p["entry"] == "call" else "f0(1)", "<harness>", "exec"), ns)  # noqa: S102
-        except Exception as e:  # pylint: disable=broad-except
+        except BaseException as e:  # pylint: disable=broad-except
             exc = e
         if exc is None:
             return {"oracle": "no-exception"}
@@ -388,8 +473,8 @@ def py_tb(p, root):
                 if r is not None:
                     ents.append(f"{r}|{fs.name}|{fs.lineno}")
             parts.append("[" + " ".join(ents) + "]")
-        return {"oracle": " ; ".join(parts), "last": traceback.format_exception_only(exc)[-1].strip(),
-                "chain_py": _chain_kinds("".join(traceback.format_exception(exc)))}
+        text = "".join(traceback.format_exception(exc))
+        return {"oracle": " ; ".join(parts), "last": _last_lines(text), "chain_py": _chain_kinds(text)}
     finally:
         sys.path[:] = old
         for k in set(sys.modules) - before:
@@ -414,6 +499,8 @@ def script_only(s):
 
 
 def run_tb(p):
+    import warnings
+    warnings.simplefilter("ignore", RuntimeWarning)      # str() of a script exception class leaves a coroutine behind
     root = tempfile.mkdtemp(prefix="pysc_c18_")
     try:
         for rel, src in p["src"].items():
@@ -485,6 +572,24 @@ def cb(a):
 def mk_cb(a=1):
     t = task.create(idle)
     task.add_done_callback(t, cb, a)
+
+@event_trigger("ev_f", "f(int(a)) > 0")
+def t_evf(a=None, **kw):
+    rec("t_evf", a)
+
+@mqtt_trigger("t/x", "f(int(payload)) > 0")
+def t_mq(payload=None, **kw):
+    rec("t_mq", payload)
+
+@webhook_trigger("hook1", "f(int(payload['a'])) > 0")
+def t_wh(payload=None, **kw):
+    rec("t_wh", payload)
+
+@service(supports_response="optional")
+def svc_r(a=1):
+    f(a)
+    rec("svc_r", a)
+    return {"a": a}
 '''
 MOD_SRC = '''def h(x):
     y = h2(x)
@@ -494,7 +599,10 @@ def h2(x):
     FAULT
     return x
 '''
-ENTRY_KINDS = ["trig_func", "trig_expr", "active_expr", "service", "task_create", "done_callback"]
+ENTRY_KINDS = ["trig_func", "trig_expr", "active_expr", "service", "task_create", "done_callback",
+               "event_expr", "mqtt_expr", "webhook_expr", "svc_response", "trig_func_x3", "service_x3"]
+EXPR_KINDS = ("trig_expr", "active_expr", "event_expr", "mqtt_expr", "webhook_expr")
+FAULT_REPEAT = {"trig_func_x3": 3, "service_x3": 3}     # the same error several times in a row: every one is reported
 # trigger expressions that raise on their FIRST evaluation, the one done when the trigger starts (the entity they read
 # does not exist yet): (function, state variable, is the expression evaluated at start-up?)
 STARTUP_KINDS = [("t_hold", "lvl_h", True), ("t_hold_now", "lvl_hn", True), ("t_now", "lvl_n", True),
@@ -535,7 +643,17 @@ def entry_sources(p):
              "badimp.py": "import badmod\n\n@service\ndef never():\n    rec('never')\n",
              "modules/badmod.py": "q = 1\n\n1 / 0\n",
              "good.py": "@service\ndef good_svc():\n    rec('good')\n",
-             "c.py": STARTUP_SRC}
+             "c.py": STARTUP_SRC,
+             # syntax errors: in a main file, in an imported module, in a trigger expression string
+             "syn.py": "x = 1\ny = (2 +\n",
+             "synimp.py": "import synmod\n\n@service\ndef synimp_svc():\n    rec('synimp_svc')\n",
+             "modules/synmod.py": "q = 1\ndef h(:\n    pass\n",
+             "synexpr.py": "@service\ndef synexpr_before():\n    rec('synexpr_before')\n\n"
+                           "@state_trigger(\"pyscript.zz == \")\ndef t_synbad(**kw):\n    rec('t_synbad')\n\n"
+                           "@service\ndef synexpr_after():\n    rec('synexpr_after')\n",
+             # a file that fails in the middle of a class body, after a service was defined
+             "badcls.py": "@service\ndef bc_svc():\n    rec('bc_svc')\n\nclass K:\n    def m(self):\n        return 1\n"
+                          + "".join("    " + l + "\n" for l in FAULTS[p["fault"]][0]) + "    w = 3\n"}
     return files
 
 
@@ -562,6 +680,20 @@ def _parse_part(msg, cfgdir):
         if fn.startswith(base):
             out.append(f"{fn[len(base):]}|{name.strip()}|{ln}")
     return out
+
+
+class _FakeRequest:
+    """what the webhook handlers read from an aiohttp request"""
+
+    def __init__(self, data):
+        self.headers = {"Content-Type": "application/json"}
+        self._data = data
+
+    async def json(self):
+        return self._data
+
+    async def post(self):
+        raise RuntimeError("not a form")
 
 
 def run_entry(p):
@@ -600,6 +732,30 @@ def run_entry(p):
                 await env.call("pyscript", "mk_task", {"a": a})
             elif kind == "done_callback":
                 await env.call("pyscript", "mk_cb", {"a": a})
+            elif kind == "event_expr":
+                await env.fire("ev_f", {"a": a})
+            elif kind == "mqtt_expr":
+                for topic, cbk in list(mqtt_subs):
+                    if topic == "t/x":
+                        await cbk(types.SimpleNamespace(topic="t/x", payload=str(a), qos=0, retain=False))
+            elif kind == "webhook_expr":
+                h = env.hass.data.get("webhook", {}).get("hook1")
+                if h is not None:
+                    await h["handler"](env.hass, "hook1", _FakeRequest({"a": a}))
+            elif kind == "svc_response":
+                try:
+                    await env.call("pyscript", "svc_r", {"a": a}, return_response=True)
+                except Exception as e:  # pylint: disable=broad-except
+                    # a failed run has no response: Home Assistant itself reports that to the caller
+                    if "reponse" not in str(e) and "response" not in str(e):
+                        raise
+            elif kind == "trig_func_x3":
+                for _ in range(3 if a == 0 else 1):
+                    await env.fire("ev_trig", {"a": a})
+                    await env.settle(0.05)
+            elif kind == "service_x3":
+                for _ in range(3 if a == 0 else 1):
+                    await env.call("pyscript", "svc", {"a": a})
             await env.settle(0.2)
 
         # ---- load time and trigger start-up
@@ -616,6 +772,20 @@ def run_entry(p):
         res["load"] = {"loaded": loaded,
                        "script": [(n, parse_tb(m, env.cfgdir), m.strip().splitlines()[-1] if m.strip() else "") for n, m in script],
                        "other": [(n, m.strip().splitlines()[0][:80] if m.strip() else "") for n, m in other]}
+        # ---- syntax errors and the class-body failure
+        svcs = set(env.hass.services.async_services().get("pyscript", {}))
+        res["load"]["services"] = sorted(x for x in svcs if x.startswith(("syn", "bc_")))
+        r0 = len(env.records)
+        await env.set_state("pyscript.zz", "1")
+        for sv in ("synexpr_before", "synexpr_after"):
+            try:
+                await env.call("pyscript", sv)
+            except Exception:  # pylint: disable=broad-except
+                pass
+        await env.settle(0.1)
+        res["load"]["syn_recs"] = sorted(str(r[1]) for r in env.records[r0:])
+        res["load"]["syn_script"] = [(n, parse_tb(m, env.cfgdir), m.strip().splitlines()[-1] if m.strip() else "")
+                                     for n, m in script if n.split(".")[1] in ("syn", "synimp", "synmod", "synexpr", "badcls")]
         # ---- nothing of the file that failed to load may be left behind
         left = []
         r0 = len(env.records)
@@ -672,7 +842,16 @@ def run_entry(p):
         res["good_served"] = any(r[1] == "good" for r in env.records)
         return res
 
-    return ha_env.run_ha(files, legacy, body)
+    mqtt_subs = []
+
+    async def fake_subscribe(hass, topic, msg_callback, *a, **kw):
+        mqtt_subs.append((topic, msg_callback))
+        return lambda: mqtt_subs.remove((topic, msg_callback)) if (topic, msg_callback) in mqtt_subs else None
+
+    from unittest.mock import patch
+    # no broker here: MQTT messages and webhook requests are injected at the hand-over callbacks
+    with patch("homeassistant.components.mqtt.async_subscribe", fake_subscribe):
+        return ha_env.run_ha(files, legacy, body)
 
 
 def entry_expected(p):
@@ -707,6 +886,7 @@ def entry_expected(p):
         def plain(fn=None, *a, **k):
             return fn if callable(fn) else (lambda f: f)
         shim = {"event_trigger": ident, "state_trigger": ident, "state_active": ident, "service": plain,
+                "mqtt_trigger": ident, "webhook_trigger": ident,
                 "rec": lambda *a: None, "task": types.SimpleNamespace(create=lambda *a: None, add_done_callback=lambda *a: None)}
         for k, v in shim.items():
             setattr(builtins, k, v)
@@ -714,7 +894,8 @@ def entry_expected(p):
             ns = {"__name__": "a"}
             pa = os.path.join(base, "a.py")
             exec(compile(open(pa).read(), pa, "exec"), ns)  # noqa: S102
-            for key, call in (("f", "f(0)"), ("f_task", "f_task(0)"), ("cb", "cb(0)"), ("t_func", "t_func(0)"), ("svc", "svc(0)")):
+            for key, call in (("f", "f(0)"), ("f_task", "f_task(0)"), ("cb", "cb(0)"), ("t_func", "t_func(0)"), ("svc", "svc(0)"),
+                              ("svc_r", "svc_r(0)")):
                 try:
                     exec(compile(call, "<harness>", "exec"), ns)  # noqa: S102
                 except Exception as e:  # pylint: disable=broad-except
@@ -725,6 +906,16 @@ def entry_expected(p):
                 exec(compile(open(pb).read(), pb, "exec"), {"__name__": "bad"})  # noqa: S102
             except Exception as e:  # pylint: disable=broad-except
                 out["bad"] = triples(e)
+            for nm in ("syn.py", "modules/synmod.py"):
+                try:
+                    compile(open(os.path.join(base, nm)).read(), os.path.join(base, nm), "exec")
+                except SyntaxError as e:
+                    out["syntax:" + nm] = [e.lineno, f"SyntaxError: {e.msg}"]
+            pc = os.path.join(base, "badcls.py")
+            try:
+                exec(compile(open(pc).read(), pc, "exec"), {"__name__": "badcls"})  # noqa: S102
+            except Exception as e:  # pylint: disable=broad-except
+                out["badcls"] = triples(e)
             pi = os.path.join(base, "badimp.py")
             try:
                 exec(compile(open(pi).read(), pi, "exec"), {"__name__": "badimp"})  # noqa: S102
@@ -754,6 +945,12 @@ def entry_line(p):
         [True, lg, [[ok, True, ok, True, R], [ok, True, ok, True, ok]]],            # service
         [True, lg, [[ok, True, ok, True, R], [ok, True, ok, True, ok]]],            # task.create
         [True, lg, [[ok, True, ok, True, R], [ok, True, ok, True, ok]]],            # done-callback
+        [True, lg, [[R, True, ok, True, ok], [ok, True, ok, True, ok]]],            # event trigger filter expression
+        [True, lg, [[R, True, ok, True, ok], [ok, True, ok, True, ok]]],            # mqtt trigger filter expression
+        [True, lg, [[R, True, ok, True, ok], [ok, True, ok, True, ok]]],            # webhook trigger filter expression
+        [True, lg, [[ok, True, ok, True, R], [ok, True, ok, True, ok]]],            # service called with return_response
+        [caught_fn, lg, [[ok, True, ok, True, R]] * 3 + [[ok, True, ok, True, ok]]],  # the same error three times
+        [True, lg, [[ok, True, ok, True, R]] * 3 + [[ok, True, ok, True, ok]]],
     ]
     F, T = False, True
     for _fn, _var, evaluated in STARTUP_KINDS:
@@ -797,6 +994,22 @@ def gen_cases(rng, tier, search):
     cases = []
     for p in fixed_tb_cases():
         cases.append(Case(p, None, tags=("tb", p.get("tag", "fixed"))))
+    # boundary positions x expression faults; exception-class variants (in a function and at load time)
+    shapes = [(sh, f) for sh in SHAPES for f in sorted(EXPR_FAULTS)]
+    if tier == "quick":
+        rng.shuffle(shapes)
+        keep, seen = [], set()
+        for sh, f in shapes:                      # every shape twice, every fault at least once per run
+            if sum(1 for a, _ in keep if a == sh) < 2:
+                keep.append((sh, f))
+        shapes = keep
+    for sh, f in shapes:
+        p = shape_case(sh, f)
+        cases.append(Case(p, None, tags=("tb", "shape:" + sh, "fault:" + f)))
+    for name in sorted(EXC_VARIANTS):
+        for entry in ("call", "load"):
+            p = exc_variant_case(name, entry)
+            cases.append(Case(p, None, tags=("tb", "exc:" + name, "entry:" + entry)))
     fl = sorted(FAULTS)
     # every fault kind x every link kind at least once, then random combinations
     combos = [(f, l) for f in fl for l in LINKS]
@@ -973,8 +1186,11 @@ def verdict(c):
         a, b = script_only(r["impl"]), r["oracle"]
         if a != b:
             return f"traceback differs from CPython: pyscript {a} CPython {b}"
-        if r.get("last") != r.get("last_py", r.get("last")):
-            return "exception line differs"
+        lp, lc = _unq(r.get("last_ps", "")), _unq(r.get("last", ""))
+        if p.get("tag") == "arity" or p.get("fault") == "arity_ml":
+            lp, lc = lp.split(":")[0], lc.split(":")[0]   # the wording of the argument binder's TypeError is C03's topic
+        if lp != lc:
+            return f"exception type/message differs: pyscript {r.get('last_ps')!r} CPython {r.get('last')!r}"
         return None
     res, exp = r["res"], r["expected"]
     if "setup_failed" in res:
@@ -1002,11 +1218,13 @@ def verdict(c):
         if need not in res["load"]["loaded"]:
             return f"load: {need} is not loaded although only other files fail"
     want = {"trig_func": ("t_func", 0), "trig_expr": ("f", None), "active_expr": ("f", None), "service": ("svc", 0),
-            "task_create": ("f_task", 0), "done_callback": ("cb", 0)}
+            "task_create": ("f_task", 0), "done_callback": ("cb", 0), "event_expr": ("f", None), "mqtt_expr": ("f", None),
+            "webhook_expr": ("f", None), "svc_response": ("svc_r", 0), "trig_func_x3": ("t_func", 0),
+            "service_x3": ("svc", 0)}
     deferred = None
     for kind in ENTRY_KINDS:
         k = res[kind]
-        if kind == "trig_func" and not p["legacy"]:
+        if kind in ("trig_func", "trig_func_x3") and not p["legacy"]:
             # (judged by the focus=trig_func case) containment still has to hold
             if k["propagated"] or k["propagated_after"] or k["recs_after"] < 1 or k["recs_fault"] != 0:
                 return f"{kind}: not contained in the new subsystem"
@@ -1017,22 +1235,25 @@ def verdict(c):
             return f"{kind}: the occurrence after the fault was not served"
         if k["recs_fault"] != 0:
             return f"{kind}: the faulty run completed"
-        if len(k["script"]) != 1 or k["other"]:
+        nrep = FAULT_REPEAT.get(kind, 1)
+        if len(k["script"]) != nrep or k["other"]:
             return (f"{kind}: {len(k['script'])} error record(s) on the script's logger, {len(k['other'])} on "
-                    f"{sorted({n for n, _ in k['other']})} (expected exactly one, on the script's logger)")
+                    f"{sorted({n for n, _ in k['other']})} (expected exactly {nrep}, on the script's logger)")
+        if len({(tuple(tb), last) for _n, tb, last in k["script"]}) != 1:
+            return f"{kind}: the {nrep} reports of the same error differ from each other"
         name, tb, last = k["script"][0]
         key, _ = want[kind]
         expect = exp[key][-1] if key in exp else None
         # expressions are evaluated on their own evaluator: the expression frame itself has no CPython counterpart
         got = [t for t in tb if not (t.split("|")[1].startswith("file.a.") and "@" in t)]
         got = [t for t in got if "@" not in t.split("|")[1] and not t.split("|")[1].endswith(" state_trigger")]
-        if kind in ("trig_expr", "active_expr"):
+        if kind in EXPR_KINDS:
             got = [t for t in got if t.split("|")[1] in ("f", "g")]
         if expect is not None and got != expect:
             return f"{kind}: logged traceback {got} differs from CPython {expect}"
-        if exp.get(key + "_last") and _unq(last) != _unq(exp[key + "_last"]) and kind not in ("trig_expr", "active_expr"):
+        if exp.get(key + "_last") and _unq(last) != _unq(exp[key + "_last"]) and kind not in EXPR_KINDS:
             return f"{kind}: logged exception line {last!r} differs from {exp[key + '_last']!r}"
-        if key in exp and kind not in ("trig_expr", "active_expr"):
+        if key in exp and kind not in EXPR_KINDS:
             causes = k.get("causes", [[]])[0]
             if causes != exp[key][:-1] and deferred is None:
                 # judged last: a deviation in the cause part must not hide anything else in this run
@@ -1057,6 +1278,38 @@ def verdict(c):
     for bad in ("file.bad", "file.badimp"):
         if bad in ld["loaded"]:
             return f"load: {bad} raised at load time but is registered"
+    # ---- syntax errors / class-body failure
+    for bad in ("file.syn", "file.synimp", "file.badcls"):
+        if bad in ld["loaded"]:
+            return f"load: {bad} failed at load time but is registered"
+    if "file.synexpr" not in ld["loaded"]:
+        return "load: a syntax error in ONE trigger expression string unloaded the whole file synexpr.py"
+    if ld["services"] != ["synexpr_after", "synexpr_before"]:
+        return f"load: services left/missing after the syntax-error files: {ld['services']}"
+    if ld["syn_recs"] != ["synexpr_after", "synexpr_before"]:
+        return f"load: runs after the syntax-error files: {ld['syn_recs']} (the trigger with the broken expression must not run)"
+    byn = {}
+    for n, tb, last in ld["syn_script"]:
+        byn.setdefault(n.split(".")[1], []).append((n, tb, last))
+    for key, rel, nrec in (("syn", "syn.py", 1), ("synmod", "modules/synmod.py", 1)):
+        recs = byn.get(key, [])
+        lineno, msg = exp["syntax:" + rel]
+        if len(recs) != nrec:
+            return f"load: {len(recs)} error record(s) on the logger of {rel} for its syntax error"
+        n, tb, last = recs[0]
+        if last != msg or not tb or tb[-1].split("|")[0] != rel or tb[-1].split("|")[2] != str(lineno):
+            return f"load: syntax error of {rel} reported as {last!r} at {tb[-1:]} (CPython: {msg!r}, line {lineno})"
+    if len(byn.get("synimp", [])) != 1 or byn["synimp"][0][2] != exp["syntax:modules/synmod.py"][1]:
+        return f"load: importer of the module with the syntax error: {len(byn.get('synimp', []))} record(s)"
+    se = byn.get("synexpr", [])
+    if len(se) != 1 or not se[0][2].startswith("SyntaxError"):
+        return f"load: syntax error in a trigger expression string: {len(se)} record(s) {[x[2] for x in se]}"
+    bc = byn.get("badcls", [])
+    if len(bc) != 1:
+        return f"load: {len(bc)} records for badcls.py"
+    got_last, want_last = bc[0][1][-1:], exp["badcls"][-1][-1:]
+    if [x.split("|")[0::2] for x in got_last] != [x.split("|")[0::2] for x in want_last]:
+        return f"load: class-body failure of badcls.py reported at {got_last}, CPython {want_last}"
     if ld.get("leftover"):
         return f"load: file.bad raised at load time but parts of it are still live: {ld['leftover']}"
     by = {}
@@ -1089,6 +1342,13 @@ def _explain(ea, eb, last, p):
     if len(ea) == len(eb) and all(x.split("|")[2] == y.split("|")[2] for x, y in zip(ea, eb)) and all(
             x == y or (y.split("|")[1] == "<module>" and y.split("|")[0].startswith("modules/")) for x, y in zip(ea, eb)):
         return "imported-module-load-frames-attributed-to-importing-file"
+    for nm in p.get("inlined", []):
+        if len(ea) < len(eb) and _inline(eb, nm) == ea:
+            return "genexpr-frame-missing" if nm == "<genexpr>" else "class-body-frame-missing"
+    if len(ea) < len(eb) and [y for y in eb if y.split("|")[1] != "<lambda>"] == ea:
+        # a lambda is compiled natively as `__lambda_defn_temp__` with the evaluator's NAME as file name: its frame is
+        # not a script frame
+        return "lambda-frame-not-a-script-frame"
     if not last and len(ea) == 1 and len(eb) == 1 and ea[0].split("|")[2] == eb[0].split("|")[2] and \
             ea[0].split("|")[1] in ("<module>", "file.a.f0"):
         # the traceback of a cause/context starts inside a function body: there is no EvalFunc.call frame in it
@@ -1116,6 +1376,9 @@ def classify(c, reason):
                 if labels:
                     return labels[0]
             return "tb-differs:frames"
+        if reason.startswith("exception type/message differs") and "<exception str() failed>" in r.get("last_ps", "") \
+                and "<exception str() failed>" not in r.get("last", ""):
+            return "script-exception-class-__str__-not-usable"
         return "tb:" + re.sub(r"\d+", "N", reason)[:50]
     if reason.startswith("trig_func:") and not p["legacy"] and "on ['function']" in reason:
         return "new-subsystem-trigger-function-error-not-on-script-logger"
@@ -1130,6 +1393,20 @@ def classify(c, reason):
                                          for a, b in zip(got, want)):
             return "chained-cause-attributed-to-the-evaluator-not-the-function"
     return "entry:" + re.sub(r"\d+", "N", reason.split(":")[0] + ":" + reason.split(":", 1)[1][:40])
+
+
+def _inline(eb, name):
+    """CPython runs a class body / generator expression as its own code object (frame `name`); pyscript evaluates it
+    inline: the enclosing frame's entry disappears and the inner entry carries the enclosing function's name"""
+    out = []
+    for e in eb:
+        f, n, l = e.split("|")
+        if n == name and out:
+            pf, pn, _pl = out.pop().split("|")
+            out.append(f"{f}|{pn}|{l}")
+        else:
+            out.append(e)
+    return out
 
 
 def _rename_wrappers(eb):
@@ -1170,7 +1447,7 @@ def extra_coverage(cases):
     acc = sum(1 for c in cases if c.payload["kind"] == "tb" for a in c.payload.get("_accept", []) if a == "1")
     return {"fault_kinds": faults, "link_kinds": links, "tb_entry": entries, "chain_depth": depth,
             "frame_sequences_accepted_by_grammar": acc,
-            "entry_kinds_per_ha_case": ENTRY_KINDS + ["load", "load-import"] + ["startup:" + k[0] for k in STARTUP_KINDS],
+            "entry_kinds_per_ha_case": ENTRY_KINDS + ["load", "load-import", "load-syntax-main", "load-syntax-module", "load-syntax-trigger-expression", "load-class-body"] + ["startup:" + k[0] for k in STARTUP_KINDS],
             "spec_column_equals_cpython": sum(1 for c in cases if c.payload["kind"] == "tb" and c.spec is not None
                                               and script_only(c.spec) == c.payload["_run"].get("oracle"))}
 
@@ -1181,7 +1458,7 @@ if __name__ == "__main__":
     for p in fixed_tb_cases() + [build_tb_case(rng, 3, ["method", "multiline", "decorated"], "from_caught", 1, 2, 2, 1, "call")]:
         r = run_tb(p)
         print("==", p.get("tag"), p["entry"])
-        print(" impl  ", r["impl"], "|", r.get("last"))
+        print(" impl  ", r["impl"], "|", r.get("last_ps"))
         for l in r["lines"]:
             print(" model ", common.drive([l])[0])
         print(" oracle", r["oracle"])
